@@ -60,7 +60,7 @@ def materialise(layout, pool, sims, work, mult=1):
     from panqec.cli import cli
     paths = []
     for ci, c in enumerate(layout):
-        recs = [record_for(sims[pool[r[0] - 1]['key']], pool, r, mult, float_form=(ci + j_) % 2)
+        recs = [record_for(sims[pool[r[0] - 1]['key']], pool, r, mult, float_form=(ci // 2 + j_) % 2)
                 for j_, r in enumerate(c['recs']) if r]
         kind = c['kind']
         # repeated-runs layout: every container sits in its own directory and
